@@ -198,7 +198,11 @@ theorem rloopWith_mono (run : St → Res) (hrun : Mono run) (runElse : Option (S
   | cons name sub =>
     simp only
     cases getVar s.c.vars name with
-    | none => exact Frz.refl _
+    | none =>
+      simp only
+      cases hel : runElse with
+      | none => exact Frz.refl _
+      | some re => exact helse re hel s
     | some vv =>
       simp only
       have hl := rloopLoop_mono run hrun ls (loopItems vv sub) 0 s
